@@ -377,9 +377,15 @@ def run_workers(ctx, impl, prog, cases, timeout):
 def evaluate(ctx, cases):
     if ctx.replay_mode and cases and cases[0].get("explore"):
         c = cases[0]
-        r = run_workers(ctx, "py", py_prog()["prog"], [dict(impl="py", n=c["n"], explore=True, prefix=c["prefix"])], 60)[0]
+        r = run_workers(ctx, "py", py_prog()["prog"], [dict(impl="py", n=c["n"], explore=True, prefix=c["prefix"],
+                                                            tags=c.get("tags"))], 60)[0]
         ctx.count()
-        bad = predicates(r, c["n"])
+        bad = []
+        if c.get("tags"):
+            for tg in sorted(set(c["tags"])):
+                bad += predicates(r, c["n"], [t for t in range(c["n"]) if c["tags"][t] == tg])
+        else:
+            bad = predicates(r, c["n"])
         if r["status"] in ("timeout", "stuck"):
             bad.append("no call can make progress (%s): %s" % (r["status"], r["detail"]))
         if bad:
@@ -485,7 +491,7 @@ def evaluate(ctx, cases):
             ctx.sample(dict(impl=impl, n=c["n"], sched=r["sched"], observation=obs))
 
 
-def explore(ctx, n, limit, rng=None):
+def explore(ctx, n, limit, rng=None, tags=None):
     """Model-free search on the real Python implementation: enumerate the implementation's OWN schedule tree
     (every parked thread is a choice, both outcomes of every f) and evaluate the property on each complete run.
     This is what finds the concrete failing schedule when the implementation no longer follows the model.
@@ -494,7 +500,7 @@ def explore(ctx, n, limit, rng=None):
     s = ctx.scratch()
     seed = rng.randrange(1 << 30) if rng is not None else None
     r, p = s.run_worker("c26_worker.py", dict(impl="py", prog=g["prog"], cases=[], timeout=30,
-                                              explore_tree=dict(n=n, limit=limit, seed=seed)), timeout=3600)
+                                              explore_tree=dict(n=n, limit=limit, seed=seed, tags=tags)), timeout=3600)
     if r is None:
         raise RuntimeError("c26 explore worker failed: " + (p.stderr[-2000:] or p.stdout[-500:]))
     t = r["tree"]
@@ -503,11 +509,12 @@ def explore(ctx, n, limit, rng=None):
     for key in t["nontrivial"]:
         ctx.nontrivial(("explore", n, key))
     for b in t["bad"]:
-        ctx.violation(dict(impl="py", n=n, explore=True, prefix=b["sched"],
+        ctx.violation(dict(impl="py", n=n, explore=True, prefix=b["sched"], tags=tags,
                            observed=dict(outcomes=b["outcomes"], events=[e[:3] for e in b["events"]][:80])),
                       "init_once (Python api.py implementation, %d threads, schedule %r): %s"
                       % (n, b["sched"], "; ".join(b["bad"][:3])))
-    ctx.extra.setdefault("explored_impl_schedules", {})[str(n)] = dict(runs=t["runs"], exhausted=t["exhausted"])
+    ctx.extra.setdefault("explored_impl_schedules", {})[str(n) + ("/tags %r" % (tags,) if tags else "")] = dict(
+        runs=t["runs"], exhausted=t["exhausted"])
 
 
 def check_counts(ctx, cases):
@@ -562,6 +569,10 @@ def run(ctx):
         explore(ctx, 2, 5000)
     if not ctx.violations:
         explore(ctx, 3, ctx.n(1500, 40000), rng=ctx.rng)
+    if not ctx.violations:
+        # two tags at once: callers 0,1 on one tag, caller 2 (3) on another; the property per tag
+        explore(ctx, 3, ctx.n(600, 10000), rng=ctx.rng, tags=[0, 0, 1])
+        explore(ctx, 4, ctx.n(300, 10000), rng=ctx.rng, tags=[0, 1, 0, 1])
     if not ctx.violations:
         evaluate(ctx, rest)
         check_counts(ctx, cases)
